@@ -24,6 +24,8 @@ def compare(base, twin, k_ext, exact, tol, what, kind):
     def eq(a, b):
         if a is None or b is None:
             return a is None and b is None
+        if isinstance(a, float) and isinstance(b, float) and math.isnan(a) and math.isnan(b):
+            return True
         return core.bit_eq(a, b) if exact else core.close(a, b, tol, 1e-300)
 
     for k in range(base["n"]):
